@@ -1195,7 +1195,10 @@ class _RpcThread(QMI_Thread):
 
         # Check that the method exists. Look the name up statically: `hasattr()`/`getattr()` would evaluate
         # descriptors, i.e. run a property getter for a name that is not an RPC method.
+        # The name comes out of a message and can be any object; only a string can name a method.
         try:
+            if not isinstance(request.method_name, str):
+                raise AttributeError(request.method_name)
             static_attr = inspect.getattr_static(self._rpc_object, request.method_name)
         except AttributeError:
             raise QMI_UnknownRpcException("Object {} of type {} does not have method {}"
